@@ -59,7 +59,8 @@ class Builder:
     def shifter(self):
         """a construct that makes output line numbers differ from source line numbers"""
         rng = self.rng
-        k = rng.randrange(8)
+        # in a header that is included twice only constructs that declare nothing are used
+        k = rng.randrange(8) if not getattr(self, 'declare_nothing', False) else rng.choice([0, 1, 4])
         self.k += 1
         if k == 0:
             self.phys('/* a comment')
@@ -119,6 +120,40 @@ def build_case(rng, cid, kind):
     for _ in range(rng.randrange(0, 3)):
         main.shifter()
     expected_lines = None
+    if cls != 'preprocessor' and rng.random() < 0.2:
+        # the same header included twice (X-macro style): the defect only exists in the SECOND inclusion,
+        # on a line that also produced output in the first one; the include site must be the second
+        inc = Builder(rng, 'part.h')
+        inc.declare_nothing = True
+        for _ in range(rng.randrange(0, 3)):
+            inc.shifter()
+        if where == 'top':
+            expected_lines = [inc.phys(ind + 'DL')]
+        else:
+            inc.phys('void FN()')
+            inc.phys('{')
+            expected_lines = [inc.phys(ind + 'DL')]
+            inc.phys('  g1 = 7;')
+            inc.phys('}')
+        for _ in range(rng.randrange(0, 2)):
+            inc.shifter()
+        files.append(('part.h', inc.text()))
+        main.phys('#define FN incA')
+        main.phys('#define DL %s' % ('char okA;' if where == 'top' else 'g1 = 1;'))
+        main.phys('#include "part.h"')
+        for _ in range(rng.randrange(0, 2)):
+            main.shifter()
+        main.phys('#undef DL')
+        main.phys('#undef FN')
+        main.phys('#define FN incB')
+        main.phys('#define DL %s' % defect)
+        site = main.phys('#include "part.h"')
+        main.phys('void main()')
+        main.phys('{')
+        main.phys('  g1 = 1;')
+        main.phys('}')
+        return {'id': cid, 'kind': kind, 'class': cls, 'src': main.text(crlf=False), 'files': files,
+                'file': 'part.h', 'lines': expected_lines, 'inc': ['main.c', site]}
     if in_include:
         inc = Builder(rng, 'part.h')
         for _ in range(rng.randrange(0, 4)):
